@@ -76,6 +76,21 @@ fn type_table() -> Vec<(&'static str, bool, bool)> {
     let it = cache.remap_frame(&frame);
     let w = w_of(&it);
     v.push(("RemappedFrameIter (cache)", (&w).is_send(), (&w).is_sync()));
+    // value-level entries for the unnameable `impl Trait` results
+    let mapper: &'static cur::ProguardMapper<'static> = Box::leak(Box::new(cur::ProguardMapper::new(cur::ProguardMapping::new(MAPPING))));
+    let sig_m: &'static proguard::DeobfuscatedSignature = Box::leak(Box::new(mapper.deobfuscate_signature("(La;I)Lb;").expect("signature")));
+    let sig_c: &'static proguard::DeobfuscatedSignature = Box::leak(Box::new(cache.deobfuscate_signature("(La;I)Lb;").expect("signature")));
+    let w = w_of(&sig_m.parameters_types());
+    v.push(("DeobfuscatedSignature::parameters_types() (mapper)", (&w).is_send(), (&w).is_sync()));
+    let w = w_of(&sig_c.parameters_types());
+    v.push(("DeobfuscatedSignature::parameters_types() (cache)", (&w).is_send(), (&w).is_sync()));
+    let w = w_of(&mapper.remap_frame(&frame));
+    v.push(("RemappedFrameIter (mapper, value)", (&w).is_send(), (&w).is_sync()));
+    let mapping: &'static cur::ProguardMapping<'static> = Box::leak(Box::new(cur::ProguardMapping::new(MAPPING)));
+    let w = w_of(&mapping.iter());
+    v.push(("ProguardMapping::iter() (value)", (&w).is_send(), (&w).is_sync()));
+    let w = w_of(&mapping.summary());
+    v.push(("ProguardMapping::summary() (value)", (&w).is_send(), (&w).is_sync()));
     v
 }
 
@@ -545,6 +560,44 @@ fn history_pass(acc: &mut Acc) {
     acc.states += 1;
     acc.transitions += 4 * n as u64;
     acc.count("history pass: classes in the large mapping", n as u64);
+    // (c) one method with many single-line ranges that are NOT in ascending order (descending, zig-zag, one early
+    //     high range): every line asked in ascending, descending and alternating order on the same objects
+    for m in [33usize, 100, 129, 151, 401] {
+        for shape in 0..3usize {
+            let order: Vec<usize> = match shape {
+                0 => (0..m).rev().collect(),
+                1 => (0..m).map(|i| if i % 2 == 0 { i / 2 } else { m - 1 - i / 2 }).collect(),
+                _ => std::iter::once(m - 1).chain(0..m - 1).collect(),
+            };
+            let mut text = String::from("s.Desc -> desc:\n");
+            for k in &order {
+                text.push_str(&format!("    {}:{}:void o{}():{} -> d\n", 10 * k + 1, 10 * k + 5, k, 1000 + k));
+            }
+            let bytes: &'static [u8] = crate::ast::leak_bytes(text.as_bytes());
+            let mapper = cur::ProguardMapper::new(cur::ProguardMapping::new(bytes));
+            let buf: &'static Aligned = Box::leak(Box::new(Aligned::new(&cur::write_cache(bytes).expect("write"))));
+            let cache = cur::ProguardCache::parse(buf.as_slice()).expect("parse");
+            let asc: Vec<usize> = (0..m).collect();
+            let desc: Vec<usize> = (0..m).rev().collect();
+            let alt: Vec<usize> = (0..m).map(|i| if i % 2 == 0 { i / 2 } else { m - 1 - i / 2 }).collect();
+            let hop: Vec<usize> = (0..m).map(|i| (i * 37) % m).collect();
+            for seq in [&asc, &desc, &alt, &hop] {
+                for &k in seq.iter() {
+                    for line in [10 * k + 1, 10 * k + 3, 10 * k + 5, 10 * k + 7] {
+                        let f = cur::StackFrame::new("desc", "d", line);
+                        let exp: Vec<String> = if line <= 10 * k + 5 { vec![format!("o{}:{}", k, 1000 + k)] } else { vec![] };
+                        let gm: Vec<String> = mapper.remap_frame(&f).map(|x| format!("{}:{}", x.method(), x.line())).collect();
+                        let gc: Vec<String> = cache.remap_frame(&f).map(|x| format!("{}:{}", x.method(), x.line())).collect();
+                        acc.observations += 2;
+                        if gm != exp || gc != exp {
+                            acc.violation("history:unsorted-ranges", 4, || (format!("{} ranges in file order shape {}: line {} asked in a sequence of queries on the same objects: mapper {:?} cache {:?}, alone it answers {:?}", m, shape, line, gm, gc, exp), json!({"kind":"history"})));
+                        }
+                    }
+                }
+            }
+            acc.states += 1;
+        }
+    }
     if let Some(d) = first {
         acc.violation("history:large-mapping", 3, || (format!("{} ({} wrong answers)", d, wrong), json!({"kind":"history"})));
     }
@@ -716,7 +769,7 @@ pub fn run(tier: Tier) -> i32 {
         prop: "C20",
         tier,
         level: "model_checking",
-        rule: format!("type gate: Send and Sync of {} public handle / iterator / result types (run-time evaluated auto-trait table). Schedules: every configuration is explored twice, each time in a pristine subprocess: by shuttle's exhaustive DFS (tasks under shuttle's scheduler) and by a baton scheduler over real OS threads (all interleavings of the steps; thread-locals behave as in production); the threads share one mapper, one mapper-with-index, one parsed cache and one mapping; {} thread configurations: all {} ordered pairs of the 16 scripts x 3 steps{}; a scheduling point before every API call and every iterator step; oracle: every thread observes exactly what its script observes alone. History pass: back-to-back queries on one shared cache / mapper (one thread, and two OS threads taking turns) for pairs of class names that collide under ten common 32-bit fingerprints, and for a mapping of 70000 classes queried at index distances 65535 / 65536. states = schedules (complete executions); transitions = steps executed; distinct = distinct (configuration, schedule count)", table.len(), nconf, OPS.len() * OPS.len(), if t { ", all unordered pairs x 5 steps, all triples over 6 scripts x 3 steps" } else { ", three 3-thread configurations x 2 steps" }),
+        rule: format!("type gate: Send and Sync of {} public handle / iterator / result types (run-time evaluated auto-trait table). Schedules: every configuration is explored twice, each time in a pristine subprocess: by shuttle's exhaustive DFS (tasks under shuttle's scheduler) and by a baton scheduler over real OS threads (all interleavings of the steps; thread-locals behave as in production); the threads share one mapper, one mapper-with-index, one parsed cache and one mapping; {} thread configurations: all {} ordered pairs of the 16 scripts x 3 steps{}; a scheduling point before every API call and every iterator step; oracle: every thread observes exactly what its script observes alone. History pass: back-to-back queries on one shared cache / mapper (one thread, and two OS threads taking turns) for pairs of class names that collide under ten common 32-bit fingerprints, for a mapping of 70000 classes queried at index distances 65535 / 65536, and for one method with 33..401 ranges in non-ascending file order whose lines are asked in four different orders. states = schedules (complete executions); transitions = steps executed; distinct = distinct (configuration, schedule count)", table.len(), nconf, OPS.len() * OPS.len(), if t { ", all unordered pairs x 5 steps, all triples over 6 scripts x 3 steps" } else { ", three 3-thread configurations x 2 steps" }),
         bounds: json!({"scripts": OPS, "configurations": nconf, "mapping": esc(MAPPING)}),
         assumptions,
         trusted_base: vec!["rustc/std (auto traits)".into(), "shuttle 0.9.3 DFS scheduler".into()],
